@@ -12,6 +12,7 @@ import (
 	"io"
 	"io/fs"
 	"os"
+	"path/filepath"
 	"strconv"
 	"time"
 )
@@ -29,6 +30,7 @@ func init() {
 	vhRegister("vh_C09_order", vh_C09_order)
 	vhRegister("vh_C06_wiring", vh_C06_wiring)
 	vhRegister("vh_C05_wiring", vh_C05_wiring)
+	vhRegister("vh_C10_layoutsigs", vh_C10_layoutsigs)
 }
 
 var vhEvents []string
@@ -37,6 +39,7 @@ var vhProvenanceOK bool
 const vhLayoutTag = "LAYOUT-UNDER-VERIFICATION"
 
 func vhEvent(e string) { vhEvents = append(vhEvents, e) }
+
 var vhProvFailedAt string
 
 func vhProv(ok bool) {
@@ -47,6 +50,7 @@ func vhProv(ok bool) {
 		vhProvenanceOK = false
 	}
 }
+
 var vhFailedStages []string
 
 func vhFail(stage string) bool {
@@ -241,7 +245,7 @@ func vhVerifyArtifacts(items []interface{}, md map[string]Metadata) error {
 }
 
 var vhRunDirArg string
-var vhUseDSSEArg bool // the entry point passes true exactly when the layout came in a DSSE envelope
+var vhUseDSSEArg bool    // the entry point passes true exactly when the layout came in a DSSE envelope
 var vhLineNormArg = true // the line-normalisation switch the harness handed to the entry point
 
 func vhRunInspections(layout Layout, runDir string, lineNorm bool, useDSSE bool) (map[string]Metadata, error) {
@@ -291,9 +295,24 @@ func (f vhFileInfo) ModTime() time.Time { return time.Time{} }
 func (f vhFileInfo) IsDir() bool        { return f.mode&fs.ModeDir != 0 }
 func (f vhFileInfo) Sys() any           { return nil }
 
+// stub: filepath.Abs — in the child-process model the working directory of the verifier is /CWD
+func vhFilepathAbs(p string) (string, error) {
+	if !vStubOn("exec") {
+		return filepath.Abs(p)
+	}
+	if len(p) > 0 && p[0] == '/' {
+		return filepath.Clean(p), nil
+	}
+	return filepath.Join("/CWD", p), nil
+}
+
 func vhOsStat(name string) (fs.FileInfo, error) {
 	if vStubOn("walk") {
 		return vhOsStatWalk(name)
+	}
+	if vStubOn("exec") {
+		// the world of the child-process model (C14): the run directory exists
+		return vhFileInfo{mode: fs.ModeDir}, nil
 	}
 	if !vStubOn("rundir") {
 		return os.Stat(name)
@@ -379,20 +398,16 @@ func vhWiringRun(a []int) (stages []string, res Metadata, err error, sigOK bool)
 		keys[k.KeyID] = k
 		supplied = append(supplied, k)
 	}
-	// reference: every supplied key has a first matching signature that is valid
+	// reference: every supplied key has a valid signature among those that carry its id
 	sigOK = nkeys >= 1
 	for _, k := range supplied {
-		found := false
+		valid := false
 		for j, s := range env.sigs {
-			if s.KeyID == k.KeyID {
-				found = true
-				if !vUFBool("valid", "layout", strconv.Itoa(j), k.KeyVal.Public) {
-					sigOK = false
-				}
-				break
+			if s.KeyID == k.KeyID && vUFBool("valid", "layout", strconv.Itoa(j), k.KeyVal.Public) {
+				valid = true
 			}
 		}
-		if !found {
+		if !valid {
 			sigOK = false
 		}
 	}
@@ -594,6 +609,36 @@ func vh_C05_wiring(a []int) {
 		vAssert("C05.accepted-returns-the-summary-of-the-reduced-links", res == vhSummary && res != nil)
 	}
 	vReach("C05.end")
+}
+
+// vh_C10_layoutsigs: the verdict on the layout signatures does not depend on the order in which the supplied
+// keys are walked: two calls under independent symbolic orders agree with each other and with "every supplied
+// key has a valid signature".  a = {#supplied keys, #signature entries}
+func vh_C10_layoutsigs(a []int) {
+	nkeys, nsigs := a[0], a[1]
+	env := &vhMeta{tag: "layout", payload: Layout{Type: "layout"}}
+	for j := 0; j < nsigs; j++ {
+		env.sigs = append(env.sigs, Signature{KeyID: vPick("lsig.keyid", vhFID[0], vhFID[1], vhFID[2]), Sig: "00"})
+	}
+	keys := map[string]Key{}
+	all := nkeys >= 1
+	for i := 0; i < nkeys; i++ {
+		k := vhFKey(i)
+		keys[k.KeyID] = k
+		valid := false
+		for j, s := range env.sigs {
+			if s.KeyID == k.KeyID && vUFBool("valid", "layout", strconv.Itoa(j), k.KeyVal.Public) {
+				valid = true
+			}
+		}
+		all = all && valid
+	}
+	e1 := VerifyLayoutSignatures(env, keys)
+	e2 := VerifyLayoutSignatures(env, keys)
+	vObserve("layoutsigs", e1 == nil, e2 == nil)
+	vAssert("C10.layout-signature-verdict-does-not-depend-on-the-key-order", (e1 == nil) == (e2 == nil))
+	vAssert("C10.layout-signature-verdict-is-every-supplied-key-verifies", (e1 == nil) == all && (e2 == nil) == all)
+	vReach("C10.end")
 }
 
 // ---- C06 ---------------------------------------------------------------------
@@ -845,8 +890,8 @@ func vh_C08_authorized(a []int) {
 // ---- C09 ---------------------------------------------------------------------
 
 type vhRunCall struct {
-	name, runDir, cmd   string
-	pathsOK, keyZero    bool
+	name, runDir, cmd    string
+	pathsOK, keyZero     bool
 	algOK, noExcl, flags bool
 }
 
